@@ -68,7 +68,7 @@ def _key(site, J, D, err, det):
     return None
 
 
-def _friction(ctx, S, t, q, u, u_dot, la_F, label, ex):
+def _friction(ctx, S, t, q, u, u_dot, la_F, label, ex, hrel=1e-4):
     P, sc = so.path(S, t, q, u, u_dot)
     ok, gam = so.guarded(ctx, f"{label}.gamma_F", lambda: S.gamma_F(t, q, u), extra=ex, key_fn=_exc_key)
     if not ok:
@@ -81,19 +81,19 @@ def _friction(ctx, S, t, q, u, u_dot, la_F, label, ex):
         so.jac(ctx, f"{label}.W_F", dense(W).T, lambda v: S.gamma_F(t, q, v), u, ex, _key, mon="W:W_F")
     okq, J = so.guarded(ctx, f"{label}.gamma_F_q", lambda: S.gamma_F_q(t, q, u), extra=ex, key_fn=_exc_key)
     if okq:
-        so.jac(ctx, f"{label}.gamma_F_q", J, lambda x: S.gamma_F(t, x, u), q, ex, _key, mon="D:gamma_F_q")
+        so.jac(ctx, f"{label}.gamma_F_q", J, lambda x: S.gamma_F(t, x, u), q, ex, _key, mon="D:gamma_F_q", hrel=hrel)
     okq, J = so.guarded(ctx, f"{label}.xi_F_q", lambda: S.xi_F_q(t, q, u), extra=ex, key_fn=_exc_key)
     if okq:
-        so.jac(ctx, f"{label}.xi_F_q", J, lambda x: S.gamma_F(t, x, u), q, ex, _key, mon="D:gamma_F_q")
+        so.jac(ctx, f"{label}.xi_F_q", J, lambda x: S.gamma_F(t, x, u), q, ex, _key, mon="D:gamma_F_q", hrel=hrel)
     if okw:
         okq, J = so.guarded(ctx, f"{label}.Wla_F_q", lambda: S.Wla_F_q(t, q, la_F), extra=ex, key_fn=_exc_key)
         if okq:
-            so.jac(ctx, f"{label}.Wla_F_q", J, lambda x: dense(S.W_F(t, x)) @ la_F, q, {**ex, "la_F": la_F}, _key, mon="D:Wla_F_q")
+            so.jac(ctx, f"{label}.Wla_F_q", J, lambda x: dense(S.W_F(t, x)) @ la_F, q, {**ex, "la_F": la_F}, _key, mon="D:Wla_F_q", hrel=hrel)
     if okd:
         ctx.mon("D:gamma_F_dot_q"); ctx.mon("D:gamma_F_dot_u")
         okq, J = so.guarded(ctx, f"{label}.gamma_F_dot_q", lambda: S.gamma_F_dot_q(t, q, u, u_dot), extra=ex, key_fn=_exc_key)
         if okq:
-            so.jac(ctx, f"{label}.gamma_F_dot_q", J, lambda x: S.gamma_F_dot(t, x, u, u_dot), q, ex, _key, mon="D:gamma_F_dot_q")
+            so.jac(ctx, f"{label}.gamma_F_dot_q", J, lambda x: S.gamma_F_dot(t, x, u, u_dot), q, ex, _key, mon="D:gamma_F_dot_q", hrel=hrel)
         oku, J = so.guarded(ctx, f"{label}.gamma_F_dot_u", lambda: S.gamma_F_dot_u(t, q, u, u_dot), extra=ex, key_fn=_exc_key)
         if oku:
             so.jac(ctx, f"{label}.gamma_F_dot_u", J, lambda x: S.gamma_F_dot(t, q, x, u_dot), u, ex, _key, mon="D:gamma_F_dot_u")
@@ -177,6 +177,7 @@ def run_case(spec, ctx):
                         u[s_.my_uDOF[3:]] = 0.0   # no spin
             # place the ball(s) relative to the contact surface: open / touching / penetrating
             gap_target = [rng.uniform(0.05, 3), 0.0, -rng.uniform(0.01, 0.5)][k % 3]
+            hrel = 1e-4
             if parts[0] == "s2p":
                 sub = subs[0]
                 qs = q[sub.my_qDOF]
@@ -195,6 +196,18 @@ def run_case(spec, ctx):
                 mover = subs[1] if getattr(subs[1], "nq", 0) else subs[0]
                 sgn = 1.0 if mover is subs[1] else -1.0
                 q[mover.my_qDOF[:3]] += sgn * (want - dist) * d / dist
+                hrel = 1e-4
+                if mu > 0 and rng.random() < 0.35:
+                    # contact normal close to the pole of the tangent construction (the reference tangent t2 of the contact):
+                    # the basis is smooth there but varies on the scale of the angular distance to the pole
+                    delta = float(loguniform(rng, 1.5e-4, 0.05))
+                    pole = np.asarray(con.reference_contact_basis[:, 1], dtype=float) * (1.0 if rng.random() < 0.5 else -1.0)
+                    perp = np.cross(pole, rng.normal(size=3)); perp /= np.linalg.norm(perp)
+                    n_t = np.cos(delta) * pole + np.sin(delta) * perp
+                    other = cs[0] if mover is subs[1] else cs[1]
+                    q[mover.my_qDOF[:3]] = other + sgn * want * n_t
+                    hrel = min(1e-4, delta * 1e-2)
+                    ctx.cls(f"state:normal_near_tangent_pole:1e{int(np.floor(np.log10(delta)))}")
             ctx.cls(f"state:{['open', 'touching', 'penetrating'][k % 3]}:{'nonunit' if 'nonunit' in qc else 'unit'}")
             if first_state is None:
                 first_state = [t, q.tolist()]
@@ -243,7 +256,7 @@ def run_case(spec, ctx):
             names = {"g": "g_N", "g_dot": "g_N_dot", "g_ddot": "g_N_ddot", "W": "W_N", "g_q": "g_N_q", "g_dot_q": "xi_N_q", "g_dot_u": None, "Wla_q": "Wla_N_q"}
             so.constraint_hierarchy(ctx, system, t, q, u, u_dot, la_N, label, names=names, extra=params, key_fn=_key, exc_key_fn=_exc_key)
             if mu > 0:
-                _friction(ctx, system, t, q, u, u_dot, la_F, label, ex)
+                _friction(ctx, system, t, q, u, u_dot, la_F, label, ex, hrel)
             else:
                 for m in ("GEO:gamma_F", "T:gamma_F_dot", "W:W_F", "D:gamma_F_q", "D:Wla_F_q", "D:gamma_F_dot_q", "D:gamma_F_dot_u"):
                     pass
